@@ -123,7 +123,9 @@ class AsyncEventManager(EventManager):
                 break
             try:
                 self.handle_event(event)
-            except Exception as excp:
+            except BaseException as excp:
+                # BaseException: a handler ending with SystemExit / GeneratorExit / KeyboardInterrupt must not kill
+                # the event-handling thread silently (the run would carry on with no backend fed anymore)
                 self._pending_failure = excp, serialize_current_exception()
                 break
             finally:
